@@ -6,6 +6,7 @@ import (
 	"bytes"
 	"github.com/dominant-strategies/go-quai/crypto/multiset"
 	"github.com/dominant-strategies/go-quai/ethdb"
+	"github.com/dominant-strategies/go-quai/params"
 	"github.com/dominant-strategies/go-quai/trie"
 	"sort"
 
@@ -589,8 +590,52 @@ func TestC08(t *testing.T) {
 				fail("pow-recomputed", "accepted-block", fmt.Sprintf("#%d hash %x recomputed %x target %x", bi.Number, bi.Hash, ph, target))
 			}
 			simkit.Global.Inc("seals_recomputed")
+			checkWorkShareVerdicts(n, h, bi, fail)
 		}}
 	})
+}
+
+// checkWorkShareVerdicts re-seals copies of an accepted block's header with nonces whose proof-of-work hash falls
+// (a) at or below the workshare target implied by the declared difficulty, 2^256/difficulty * 2^k with k the protocol's
+// workshare threshold, and (b) just above it (within a factor of two and within a factor of 2^4), and asks the node to
+// grade each as a workshare. (a) must be graded valid, (b) never.
+func checkWorkShareVerdicts(n *Node, h *types.WorkObjectHeader, bi *BlockInfo, fail func(class, witness, detail string)) {
+	if h.PrimeTerminusNumber().Uint64() >= params.KawPowForkBlock {
+		return
+	}
+	blockTarget := new(big.Int).Div(common.Big2e256, h.Difficulty())
+	shareTarget := new(big.Int).Lsh(blockTarget, uint(params.WorkSharesThresholdDiff))
+	bands := []struct {
+		name  string
+		lo    *big.Int // exclusive
+		hi    *big.Int // inclusive
+		valid bool
+	}{
+		{"share-at-or-below-target", blockTarget, shareTarget, true},
+		{"share-above-target-within-2x", shareTarget, new(big.Int).Lsh(shareTarget, 1), false},
+		{"share-above-target-2x-to-16x", new(big.Int).Lsh(shareTarget, 1), new(big.Int).Lsh(shareTarget, 4), false},
+	}
+	seal, mix := h.SealHash(), h.MixHash()
+	found := 0
+	for i := uint64(0); i < 1<<14 && found != 1<<len(bands)-1; i++ {
+		var nonce types.BlockNonce
+		binary.BigEndian.PutUint64(nonce[:], binary.BigEndian.Uint64(bi.Hash[:8])+i)
+		v := new(big.Int).SetBytes(powHash(seal, mix, nonce).Bytes())
+		for bIdx, b := range bands {
+			if found&(1<<bIdx) != 0 || v.Cmp(b.lo) <= 0 || v.Cmp(b.hi) > 0 {
+				continue
+			}
+			found |= 1 << bIdx
+			ws := types.CopyWorkObjectHeader(h)
+			ws.SetNonce(nonce)
+			got := n.Zone().CheckIfValidWorkShare(ws)
+			simkit.Global.Inc("workshare_verdicts_" + b.name)
+			if (got == types.Valid) != b.valid {
+				fail("workshare-target", b.name, fmt.Sprintf("header of #%d re-sealed with nonce %x has pow hash %x, workshare target for difficulty %v is %x: graded %v", bi.Number, nonce, v, h.Difficulty(), shareTarget, got))
+				return
+			}
+		}
+	}
 }
 
 // ---------------------------------------------------------------- C04 (ETX exactly once, in order) — single slice
